@@ -54,6 +54,8 @@ package document
 //@ ensures err == nil ==> has(d.parts, "word/document.xml")
 //@ ensures err != nil ==> unchangedHeap()
 //@ ensures forall k string :: k != "word/document.xml" ==> (has(d.parts, k) <==> old(has(d.parts, k))) && d.parts[k] == old(d.parts[k])
+//@ ensures forall m map[string][]byte, k string :: m != d.parts ==> (has(m, k) <==> old(has(m, k))) && m[k] == old(m[k])
+//@ ensures err == nil ==> freshArr(d.parts["word/document.xml"])
 //@ ensures unchangedExcept("map:string:[]byte")
 
 //@ func (*Document).serializeStyles
@@ -63,6 +65,8 @@ package document
 //@ ensures err != nil ==> unchangedHeap()
 //@ ensures old(has(d.parts, "word/styles.xml") && len(d.parts["word/styles.xml"]) > 0) ==> err == nil && unchangedHeap()
 //@ ensures forall k string :: k != "word/styles.xml" ==> (has(d.parts, k) <==> old(has(d.parts, k))) && d.parts[k] == old(d.parts[k])
+//@ ensures forall m map[string][]byte, k string :: m != d.parts ==> (has(m, k) <==> old(has(m, k))) && m[k] == old(m[k])
+//@ ensures err == nil && !old(has(d.parts, "word/styles.xml") && len(d.parts["word/styles.xml"]) > 0) ==> freshArr(d.parts["word/styles.xml"])
 //@ ensures unchangedExcept("map:string:[]byte")
 
 //@ func (*Document).serializeContentTypes
@@ -70,6 +74,8 @@ package document
 //@ requires d != nil && d.parts != nil
 //@ ensures has(d.parts, "[Content_Types].xml")
 //@ ensures forall k string :: k != "[Content_Types].xml" ==> (has(d.parts, k) <==> old(has(d.parts, k))) && d.parts[k] == old(d.parts[k])
+//@ ensures forall m map[string][]byte, k string :: m != d.parts ==> (has(m, k) <==> old(has(m, k))) && m[k] == old(m[k])
+//@ ensures freshArr(d.parts["[Content_Types].xml"])
 //@ ensures unchangedExcept("map:string:[]byte")
 
 //@ func (*Document).serializeRelationships
@@ -77,11 +83,9 @@ package document
 //@ requires d != nil && d.parts != nil
 //@ ensures has(d.parts, "_rels/.rels")
 //@ ensures forall k string :: k != "_rels/.rels" ==> (has(d.parts, k) <==> old(has(d.parts, k))) && d.parts[k] == old(d.parts[k])
+//@ ensures forall m map[string][]byte, k string :: m != d.parts ==> (has(m, k) <==> old(has(m, k))) && m[k] == old(m[k])
+//@ ensures freshArr(d.parts["_rels/.rels"])
 //@ ensures unchangedExcept("map:string:[]byte")
 
-//@ func (*Document).serializeDocumentRelationships
-//@ props C05, C04, C01
-//@ requires d != nil && d.parts != nil && d.documentRelationships != nil
-//@ ensures has(d.parts, "word/_rels/document.xml.rels")
-//@ ensures forall k string :: k != "word/_rels/document.xml.rels" ==> (has(d.parts, k) <==> old(has(d.parts, k))) && d.parts[k] == old(d.parts[k])
-//@ ensures unchangedExcept("map:string:[]byte")
+// serializeDocumentRelationships: under contract in zz_contracts_verif_image.go (same frame clause, plus the loop that
+// picks an unused id for the styles relationship).
